@@ -84,7 +84,7 @@ func VerifC11_Histories() {
 				verifrt.Assert(st.Revoked == listed(inForce, "CN=I1", p), "revoked exactly if listed by the list in force")
 			}
 			// same serial, other issuer
-			st2, err2 := w.repo.IsRevoked(cert("CN=I2", p), nil)
+			st2, err2 := w.repo.IsRevoked(cert("CN=I12", p), nil)
 			verifrt.Assert(err2 == nil && !st2.Revoked, "entries of one issuer never affect another issuer's certificates")
 		}
 	}
